@@ -37,7 +37,7 @@ STACK_CONSUMERS = {"apply": 2, "apply_low": 2, "safe_apply": 2, "call_function_p
 
 def check(run, prog, tier):
     run.rule("C05-a", "error_context_t typestate: no raising call while saved-but-unarmed or before restore_context on the jump branch; every exit popped; no double save; save result tested unless shallow", 30)
-    run.rule("C05-b", "save/restore field agreement: fields written by save_context are consumed by restore/pop_context; registers saved by push_control_stack are restored by pop_control_stack", 2)
+    run.rule("C05-b", "save/restore field agreement: fields written by save_context are consumed by restore/pop_context; registers saved by push_control_stack are restored by pop_control_stack, each from its own field and unconditionally", 3)
     run.rule("C05-c", "error_handler: reset_destruct_object_limits and reset_load_object_limits dominate every longjmp; in_error/in_mudlib_error_handler are not left set at any longjmp", 4)
     run.rule("C05-d", "a static re-entrancy guard set around raising calls is cleared on the error path (error_handler resets it or a recovery point surrounds the calls)", 1)
     run.rule("C05-f", "protected-call wrappers (safe_apply, safe_call_function_pointer, ...) consume their stacked arguments on every path, including the recovery branch", 2)
@@ -201,6 +201,36 @@ def check(run, prog, tier):
     w2m = w2 - {"framekind"}  # the frame kind is consumed by the unwinder (error_handler/do_catch), not a register
     run.ob("C05-b", "frame-fields", w2m <= r2, "push_control_stack saves %s; pop_control_stack restores %s" % (sorted(w2m), sorted(r2 & w2m)), pu.file, pu.line, "push_control_stack",
            what="register(s) saved by push_control_stack but not restored by pop_control_stack: %s" % sorted(w2m - r2))
+
+    # the restore is a pair-wise inverse and unconditional: restore_context() pops only the frame at save_csp + 1 and relies on
+    # that single pop to bring back every register, whatever kind of frame it is
+    saved = {}   # field -> global register
+    for b, i, n in pu.nodes():
+        if n.get("k") == "Asg" and n.get("op") == "=" and strip(n["L"]).get("k") == "Mem" and strip(n["L"]).get("rec") == crec and strip(n["R"]).get("k") == "Ref" and strip(n["R"]).get("d") in ("global", "static"):
+            saved[strip(n["L"])["f"]] = strip(n["R"])["n"]
+    run.need(len(saved) >= 6, "register/field pairs in push_control_stack (found %d)" % len(saved))
+    pd = po.pdom()
+    bad = []
+    for fld, reg in sorted(saved.items()):
+        sites = [(b, i, n) for b, i, n in po.nodes() if n.get("k") == "Asg" and n.get("op") == "=" and strip(n["L"]).get("k") == "Ref" and strip(n["L"]).get("n") == reg
+                 and strip(n["R"]).get("k") == "Mem" and strip(n["R"]).get("f") == fld and strip(n["R"]).get("rec") == crec]
+        if not sites:
+            bad.append("%s is not restored from csp->%s" % (reg, fld))
+            continue
+        # unconditional: the restoring block post-dominates the function entry
+        def postdominates(a, b_):
+            x = b_
+            seen = set()
+            while x is not None and x not in seen:
+                if x == a:
+                    return True
+                seen.add(x)
+                x = pd.get(x)
+            return False
+        if not any(postdominates(b.id, po.entry) for b, i, n in sites):
+            bad.append("%s = csp->%s (line %s) is conditional: some frame kinds are popped without restoring it" % (reg, fld, sites[0][2].get("l")))
+    run.ob("C05-b", "frame-restore-unconditional", not bad, "every register saved by push_control_stack (%s) is restored by pop_control_stack on every path" % ", ".join(sorted(saved.values())) if not bad else "; ".join(bad),
+           po.file, po.line, "pop_control_stack", what="pop_control_stack: %s - after error recovery (which pops a single catch/fake frame) the interpreter continues with the failing callee's register" % "; ".join(bad))
 
     # ---- C05-c error_handler
     eh = run.need(prog.func("error_handler"), "error_handler")
